@@ -40,6 +40,18 @@ NonPlain == { VUuid(1, 0), VObj("tuple0", <<>>, NoneOpt), VObj("tuple12", <<>>, 
               VObj("range3", <<>>, NoneOpt), VObj("object_a", <<>>, NoneOpt),
               VObj("type_int", <<>>, NoneOpt), VEllipsis }
 
+RECURSIVE HasForeign(_)
+\* some member is of a kind from_native does not know (an instance of a *subclass* of a
+\* built-in type is, for isinstance, an instance of that type: it does not count)
+HasForeign(v) ==
+  IF v \in NonPlain THEN TRUE
+  ELSE CASE v.k = "list" -> \E i \in DOMAIN v.items : HasForeign(v.items[i])
+         [] v.k = "dict" -> \E i \in DOMAIN v.pairs : HasForeign(v.pairs[i].key) \/ HasForeign(v.pairs[i].val)
+         [] v.k = "obj" -> IF IsSome(v.base) THEN HasForeign(Get(v.base)) ELSE TRUE
+         [] v.k = "uuid" -> v.ver # 4
+         [] v.k = "float" -> FALSE
+         [] OTHER -> v.k \in {"ellipsis", "nil"}
+
 RECURSIVE SameValue(_, _)
 \* equal up to Python's True/False = 1/0 identification (float tolerance is below the grid)
 SameValue(w0, v0) ==
